@@ -86,7 +86,8 @@ def gen(rng, tier):
         lines = ["m.new %d" % NATOMS, "M.noclock"]
         if k == 0:
             # (after a variable exists: colvar::init adds a run-time exclusion to the shared table)
-            lines.append(cfg(cv_conf(cvlib.Rng(7), "tab")[0])); lines.append("d.tables"); lines.append("m.scriptq cv colvar tab delete")
+            lines.append(cfg(inj_cv("tab", 0, -3.0, 3.0, 0.5) + "harmonic {\n name tabb\n colvars tab\n centers 0.0\n forceConstant 1.0\n}\n"))
+            lines.append("d.tables"); lines.append("m.scriptq cv bias tabb delete"); lines.append("m.scriptq cv colvar tab delete")
         cvs = {}     # name -> conf
         kinds = {}
         biases = {}  # name -> (conf, [cvs])
@@ -180,7 +181,7 @@ def vals(out, ln, tag):
 def oracle(case, out):
     m = case["meta"]; viol = []
     # translator cross-check
-    if "d.tables" in case["lines"][2:5]:
+    if "d.tables" in case["lines"][2:6]:
         got = sorted(tuple(tok_val(t)[1] for t in v) for (ln, tag, occ), v in out.items() if tag == "feat")
         want = sorted(expected_tables())
         if got and got != want:
